@@ -877,7 +877,7 @@ func (w *W) execAdapter(task int, op *scen.Op) {
 		if h == nil {
 			return
 		}
-		lg := logslog.New(h)
+		lg := logslog.New(simTimed{h, w})
 		var as []any
 		for i := range op.Args {
 			as = append(as, w.stdAttr(&op.Args[i]))
@@ -928,4 +928,27 @@ func rawMsg(op *scen.Op) string {
 		return string(op.X)
 	}
 	return op.Msg
+}
+
+// simTimed hands a log/slog.Logger's records on with the simulated clock's time: log/slog stamps them with
+// time.Now() inside the standard library, where no overlay rule reaches - the one wall-clock read that got
+// into event logs (found by the determinism self-test: every such episode diverged).
+type simTimed struct {
+	logslog.Handler
+	w *W
+}
+
+func (s simTimed) Handle(ctx context.Context, r logslog.Record) error {
+	if !raceEnabled && s.w.clock != nil {
+		r.Time = s.w.clock.Now()
+	}
+	return s.Handler.Handle(ctx, r)
+}
+
+func (s simTimed) WithAttrs(as []logslog.Attr) logslog.Handler {
+	return simTimed{s.Handler.WithAttrs(as), s.w}
+}
+
+func (s simTimed) WithGroup(name string) logslog.Handler {
+	return simTimed{s.Handler.WithGroup(name), s.w}
 }
